@@ -262,6 +262,48 @@ def run_c18(rep, tier, seed):
                 viol("walk-exception", "%s: %s" % (type(ex).__name__, ex), dict(board=[h, w], cfg=cfg["args"]))
             finally:
                 _unpatch(seg, saved)
+    # LARGE blocks (an implementation may treat them differently: iterative instead of recursive walks beyond some size):
+    # hand-made partitions of a 16x16 board whose big block (> 200 cells) has articulation cells of several kinds --
+    # a corner where the two parts touch only diagonally, a straight tail -- and the one-block board; every proposed update
+    # is judged
+    def big_cases():
+        H = W = 16
+        full = [(y, x) for y in range(H) for x in range(W)]
+        big = [(y, x) for y in range(13) for x in range(W)] + [(13, 3), (13, 5), (14, 5), (14, 4)]
+        single = [(13, 4)]
+        rest = [c for c in full if c not in big and c not in single]
+        yield "corner", [big, single, rest]
+        big2 = [(y, x) for y in range(13) for x in range(W)] + [(13, 8), (14, 8), (15, 8)]
+        left = [(y, x) for y in (13, 14, 15) for x in range(0, 8)]
+        right = [(y, x) for y in (13, 14, 15) for x in range(9, W)]
+        yield "tail", [big2, left, right]
+        yield "one-block", [full]
+        yield "halves", [[c for c in full if c[1] < 3], [c for c in full if c[1] >= 3]]
+
+    for label, blocks in big_cases():
+        H = W = 16
+        saved = _patch_random(seg, ScriptedRandom(seed + 5))
+        try:
+            b = seg.SegmentationBuilder2D(H, W, initial_blocks=[list(bl) for bl in blocks], allow_unmet_constraints_first=True)
+            cur = b.initial()
+            e = partition_ok(H, W, cur)
+            if e:
+                raise AssertionError("hand-made partition is not valid: " + e)
+            snap = copy.deepcopy(cur)
+            for u in b.candidates(cur):
+                alt = b.copy_with_update(cur, u)
+                e = partition_ok(H, W, alt)
+                rep.evaluations += 1
+                if e:
+                    viol("update-invalid:" + ("connectivity" if "connected" in e else "partition"), e + " (16x16 board, big block: %s)" % label,
+                         dict(board=[H, W], case=label, update=u))
+                    break
+            if cur != snap:
+                viol("update-mutates-input", "candidates / copy_with_update changed the value (16x16 board)", dict(board=[H, W], case=label))
+        except Exception as ex:
+            viol("walk-exception", "%s: %s (16x16 board, %s)" % (type(ex).__name__, ex, label), dict(board=[16, 16], case=label))
+        finally:
+            _unpatch(seg, saved)
     rep.coverage["updates_applied"] = n_updates
 
 
